@@ -11,6 +11,8 @@
 (*   <<"partnew", sub-order, part, class, slot>>  part 0 first,1 middle,2 last *)
 (*   <<"putbad", kind>>   again | bigger | hugeover | never                *)
 (*   <<"drain">>  <<"change", id, mclass, mfree, cclass, cop>>             *)
+(*   <<"twin">>  hand the metadata over to a second allocator (C07)        *)
+(*   <<"frag", tree>>  macro: one frame allocated in every row of a tree   *)
 (* Every field is a string (TLC sets need comparable elements); numbers are *)
 (* written as "0", "-1", sizes may be symbolic ("HO", "TO", "TF", "HO+1").   *)
 (* TLC enumerates EVERY sequence of Depth letters of a theme's alphabet    *)
@@ -46,13 +48,13 @@ Classy ==
     <<"get", "HO", "2", "0", "-1">>, <<"get", "HO", "1", "-1", "-1">>, <<"get", "TO", "2", "0", "-1">>,
     <<"putnew", "2", "-1">>, <<"putnew", "0", "0">>, <<"putold", "1", "-1">>,
     <<"change", "0", "-1", "0", "2", "0">>, <<"change", "-1", "1", "TF", "0", "0">>, <<"change", "1", "-1", "0", "0", "0">>,
-    <<"drain">> }
+    <<"twin">>, <<"drain">> }
 Offline ==
   { <<"change", "0", "-1", "0", "-1", "2">>, <<"change", "0", "-1", "0", "2", "1">>, <<"change", "-1", "1", "TF", "-1", "2">>,
     <<"change", "-1", "-1", "0", "0", "1">>, <<"change", "1", "-1", "1", "-1", "2">>, <<"change", "5", "-1", "0", "-1", "2">>,
     <<"get", "0", "0", "0", "-1">>, <<"get", "0", "1", "-1", "-1">>, <<"get", "HO", "1", "0", "-1">>, <<"get", "TO", "1", "-1", "-1">>,
     <<"gat", "0", "0", "0", "zero">>, <<"gat", "HO", "1", "-1", "tree1">>,
-    <<"putnew", "0", "-1">>, <<"putnew", "1", "0">>, <<"drain">> }
+    <<"putnew", "0", "-1">>, <<"putnew", "1", "0">>, <<"twin">>, <<"drain">> }
 \* multi-row blocks (orders 7, 8) next to sub-row blocks: failing targeted allocations and
 \* failing frees of partly held blocks must leave no trace
 Rows ==
@@ -77,4 +79,9 @@ Frag ==
 Full ==
   { <<"get", "8", "0", "-1", "-1">>, <<"gat", "0", "0", "-1", "held">>, <<"gat", "6", "0", "0", "held">>,
     <<"gat", "7", "0", "-1", "held">>, <<"putnew", "0", "-1">>, <<"putold", "0", "-1">>, <<"get", "HO", "1", "-1", "-1">> }
+\* as many slots as trees (such a class never reserves on its own): reservations arrive only by demotion /
+\* stealing when memory runs out
+Demote ==
+  { <<"get", "0", "1", "0", "-1">>, <<"get", "TO", "1", "-1", "-1">>, <<"get", "0", "0", "0", "-1">>,
+    <<"get", "0", "0", "1", "-1">>, <<"get", "HO", "1", "0", "-1">>, <<"putnew", "0", "-1">>, <<"drain">> }
 =============================================================================
